@@ -265,4 +265,12 @@ def check(rep, tier, seed):
         rep.violation(f"version {c['w']} data read by version {c['r']}: expected {c['expected'][:80]}, got {il.split(' ; ')[-1][:80]}",
                       {"kind": "case", "case": line, "writer_env": c["envW"], "reader_env": c["envR"],
                        "expected": c["expected"], "implementation": il, "framed": c["framed"], "n_failing": len(bad)})
-    C.report_broken(rep, ob, dis + sdis, "hist (dynamic) / sx (static)", bool(bad))
+    if sdis and not bad:
+        # a compiled history family (real macro): the reference decoder's answer is the documented outcome (theorem
+        # C03_pairs / C03_pairs_variant), so an implementation that answers differently on these bytes fails the property
+        l, a, b = sdis[0]
+        rep.violation(f"data written by one compiled version and read by another: {l[:120]}: got {a.split(' ; ')[-1][:80]}, "
+                      f"the documented outcome is {b.split(' ; ')[-1][:80]}",
+                      {"kind": "case", "case": l, "implementation": a, "documented_outcome": b, "n_failing": len(sdis),
+                       "rerun": "printf '<case>\\n' > f && .cache/target/release/dharness static f"})
+    C.report_broken(rep, ob, dis, "hist (dynamic)", bool(bad) or bool(sdis))
